@@ -165,6 +165,18 @@ def run_case(case):
                         res.check(sr.nc == ns_ + 1 and len(sr.geometry["x"]) == ns_, "geometry:split-reader", "reader of a split shank: wrong sizes")
                         h = neuropixel.split_trace_header(parent, shank=s)
                         res.check(all(np.array_equal(h[k], parent[k][sel]) for k in parent), "split_trace_header", "split_trace_header is not the restriction")
+                        # a parent whose site selection leaves some shanks unused: shank NUMBERS select, not ranks among the shanks present
+                        present = np.unique(parent["shank"])
+                        if present.size > 1:
+                            drop = rng.choice(present, int(rng.integers(1, present.size)), replace=False)
+                            keepm = ~np.isin(parent["shank"], drop)
+                            sub = {k: v[keepm] for k, v in parent.items()}
+                            for s2 in range(4):
+                                h2 = neuropixel.split_trace_header(sub, shank=s2)
+                                sel2 = sub["shank"] == s2
+                                res.check(all(np.array_equal(h2[k], sub[k][sel2]) for k in sub), "split_trace_header:unused-shanks",
+                                          f"parent with shanks {np.unique(sub['shank']).tolist()}: split_trace_header(shank={s2}) returns {len(h2['shank'])} sites of shank(s) "
+                                          f"{np.unique(h2['shank']).tolist()}, expected {int(sel2.sum())} sites of shank {s2}", counter="split_checked")
                     except Exception as e:
                         res.exception("geometry:split:exception", e, f"shank {s}")
         res.sig = f"meta-{case['seed']}"
